@@ -921,6 +921,7 @@ struct Probe { reads: Cell<u64> }
 impl Clone for Probe {
     fn clone(&self) -> Self {
         let n = self.reads.get() + 1;
+        std::hint::spin_loop();
         self.reads.set(n);
         Probe { reads: Cell::new(n) }
     }
@@ -942,12 +943,14 @@ fn main() {
     let b = f.call();
     println!("SINGLE {}", b - a);
     let before = f.call();
+    let start = std::sync::Barrier::new(4);
     std::thread::scope(|s| {
         for t in 0..4 {
             let own = if t % 2 == 1 { Some(f.clone()) } else { None };
-            let f = &f;
+            let (f, start) = (&f, &start);
             s.spawn(move || {
                 let h = own.as_ref().unwrap_or(f);
+                start.wait();
                 for _ in 0..100000 { std::hint::black_box(h.call()); }
             });
         }
@@ -956,6 +959,17 @@ fn main() {
     println!("FINAL {}", after - before - 1);
 }
 "#;
+
+/// control of `cell_value_const`: the same program with an atomic counter
+/// (`Send + Sync`) must build and count every read
+fn probe_atomic_value() -> String {
+    PROBE_CELL_VALUE
+        .replace("use std::cell::Cell;", "use std::sync::atomic::{AtomicU64, Ordering};")
+        .replace("#[derive(PartialEq)]\nstruct Probe { reads: Cell<u64> }", "struct Probe { reads: AtomicU64 }\nimpl PartialEq for Probe { fn eq(&self, o: &Self) -> bool { self.reads.load(Ordering::SeqCst) == o.reads.load(Ordering::SeqCst) } }")
+        .replace("let n = self.reads.get() + 1;\n        std::hint::spin_loop();\n        self.reads.set(n);\n        Probe { reads: Cell::new(n) }", "let n = self.reads.fetch_add(1, Ordering::SeqCst) + 1;\n        Probe { reads: AtomicU64::new(n) }")
+        .replace("Val(Probe { reads: Cell::new(0) })", "Val(Probe { reads: AtomicU64::new(0) })")
+        .replace("p.0.reads.get()", "p.0.reads.load(Ordering::SeqCst)")
+}
 
 struct ProbeResult {
     built: bool,
@@ -1083,6 +1097,19 @@ fn probes(repo: &Path, fn_bounds: Option<&str>, val_bounds: Option<&str>, rep: &
     }
     rep.evaluations += 1;
     rep.class(format!("probe cell_value_const built={}", cv.built));
+    let av = run_probe(repo, "atomic_value_const", &probe_atomic_value());
+    rep.hist("rustc-probe", format!("atomic_value_const:{}", if av.built { "accepted" } else { "rejected" }));
+    if !av.built {
+        rep.mismatch("control probe atomic_value_const (a Send + Sync host value in a script constant) does not build", json!({"diagnostics": av.diagnostics[av.diagnostics.find("error").unwrap_or(0)..].chars().take(1500).collect::<String>()}));
+    } else if final_count(&av.output) != Some(400000) {
+        rep.violation(
+            "4 x 100000 reads of a script-level constant holding a Send + Sync host value through shared and cloned handles were not all counted by its atomic clone counter",
+            "atomic-value-const-count-differs",
+            json!({"kind": "probe", "program": "atomic_value_const", "counted_reads": final_count(&av.output), "output": av.output.chars().take(200).collect::<String>()}),
+        );
+    }
+    rep.evaluations += 1;
+    rep.class(format!("probe atomic_value_const built={}", av.built));
 
     let rc = run_probe(repo, "rc_constant", PROBE_RC);
     let rc_error = rc.diagnostics.contains("E0277");
@@ -1143,6 +1170,7 @@ fn probes(repo: &Path, fn_bounds: Option<&str>, val_bounds: Option<&str>, rep: &
 
     rep.sample(json!({"probe": {"into_func_send": {"built": inf.built, "output": inf.output.trim()}, "cell_closure": {"built": cell.built, "rejected_for_sync": sync_error, "output": cell.output.trim()},
         "cell_value_const": {"built": cv.built, "rejected_for_sync": cv_sync_error, "output": cv.output.trim()},
+        "atomic_value_const": {"built": av.built, "output": av.output.trim()},
         "rc_constant": {"built": rc.built}, "atomic_closure": {"built": at.built, "output": at.output.trim()}},
         "model_admits_send_not_sync_closure": model_admits, "model_admits_send_not_sync_value": val_admits}));
 }
